@@ -36,14 +36,20 @@ MANIFEST_ENTRY = {
             "from Mathlib) the 1-D operator equals the explicit band-limited DFT formula, preserves the mean, is C-linear, is "
             "the identity for unchanged length, up->down returns the original for every complex signal and - with the `.real` "
             "steps of the code - for every real signal without Nyquist content (Hermitian-symmetry proof; real output proved). "
+            "All of these are lifted to the N-D operator (a fold of the 1-D operator over the (axis, length) pairs plus the single "
+            "N_out/N_in rescale) by induction over the axis list: N-D mean/total, linearity, identity, round trip (complex; and "
+            "real arrays with the `.real` steps under a per-stage no-Nyquist condition), and N-D calibration (centre/extent on "
+            "every resampled axis, other axes untouched). Mean reducer = block sums / block volume (theorem); padding to a "
+            "smaller shape pads nothing. "
             "Tied to the code on every run by exact equality (bin/pad/crop on integer data), a Float run of the same definitions "
             "against np.fft (tolerance 1e-9) and an exhaustive discrete index-map stream; the statement's clauses are evaluated "
             "on the real code with exact block / dense-DFT oracles as the failing-input search.",
     "note": "Trusted: Lean kernel + propext/Classical.choice/Quot.sound; np.fft is assumed to compute the defining DFT sums "
-            "(exercised by the Float stream); IEEE rounding is measured, not proved; the spectral theorems are for the 1-D "
-            "operator - N-D fourier_resample is modelled as a fold of it over the axes and its laws (separability of "
-            "np.fft.fftn) are measured on the implementation, not proved; the mean reducer is the block sum divided by the "
-            "product of factors by definition of the model (checked by exact correspondence); duplicate axes are not generated.",
+            "(exercised by the Float stream); IEEE rounding is measured, not proved; N-D fourier_resample is modelled as a fold "
+            "of the 1-D operator over the axes - that np.fft.fftn/ifftn is this separable composition is measured (Float "
+            "stream), the N-D laws of the fold are proved; the N-D round trip resamples the axes back in reverse order (for "
+            "the separable NumPy transform the order is immaterial; commutation of the fold steps is not proved); the "
+            "N-D mean theorem is for distinct axes; duplicate axes are not generated.",
     "technique": "Lean 4 proof (list/array algebra, index-map arithmetic, roots-of-unity sums over C) + model-vs-implementation correspondence",
 }
 RULE = ("a case is one operation (or one law instance) on one array; distinct non-trivial = distinct (stream, op, ndim, dtype kind, "
